@@ -975,7 +975,18 @@ def _load_data_2(rec, context):
 @saver(Data, version=3)
 def _save_data_3(data, context):
     result = _save_data_2(data, context)
-    result['_key_joins'] = [[context.id(k), context.id(v0), context.id(v1)]
+
+    def save_cid(cids):
+        # Protocol 3 pre-dates key joins on several components and stores a
+        # single component ID for each side of the join.
+        if isinstance(cids, tuple):
+            if len(cids) != 1:
+                raise GlueSerializeError("Key joins on several components cannot "
+                                         "be saved with protocol 3")
+            cids = cids[0]
+        return context.id(cids)
+
+    result['_key_joins'] = [[context.id(k), save_cid(v0), save_cid(v1)]
                             for k, (v0, v1) in data._key_joins.items()]
     return result
 
@@ -984,7 +995,13 @@ def _save_data_3(data, context):
 def _load_data_3(rec, context):
     result = _load_data_2(rec, context)
     yield result
-    result._key_joins = dict((context.object(k), (context.object(v0), context.object(v1)))
+
+    def load_cid(cid):
+        # Key joins are now stored as tuples of component IDs
+        cid = context.object(cid)
+        return cid if isinstance(cid, tuple) else (cid,)
+
+    result._key_joins = dict((context.object(k), (load_cid(v0), load_cid(v1)))
                              for k, v0, v1 in rec['_key_joins'])
 
 
